@@ -22,8 +22,9 @@
 
 import random
 from collections import deque
-from typing import TYPE_CHECKING
+from typing import TYPE_CHECKING, Iterable
 
+from .._dns import DNSRecord
 from .._utils.time import current_time_millis, millis_to_seconds
 from .answers import (
     MULTICAST_DELAY_RANDOM_INTERVAL,
@@ -90,6 +91,12 @@ class MulticastOutgoingQueue:
         """Remove a set of answers from the outgoing queue."""
         for pending in self.queue:
             for record in answers:
+                pending.answers.pop(record, None)
+
+    def async_remove_records(self, records: Iterable[DNSRecord]) -> None:
+        """Remove answers that must no longer be sent (their service was withdrawn)."""
+        for pending in self.queue:
+            for record in records:
                 pending.answers.pop(record, None)
 
     def async_ready(self) -> None:
